@@ -170,7 +170,7 @@ func (c *verifBatchClient) Batch(remote string, bReq *batchRequest) (*BatchRespo
 		return &Transfer{Oid: o.Oid, Size: o.Size, Authenticated: true, Actions: ActionSet{rel: a}, Missing: o.Missing}
 	}
 	for _, o := range bReq.Objects {
-		nforms := 7
+		nforms := 8
 		switch e.env("object", nforms) {
 		case 0:
 			form := 0
@@ -196,6 +196,9 @@ func (c *verifBatchClient) Batch(remote string, bReq *batchRequest) (*BatchRespo
 			e.lastAct[o.Oid] = "expired"
 		case 6: // plus an object nobody asked about
 			res.Objects = append(res.Objects, mk(o, 0), mk(&Transfer{Oid: strings.Repeat("9", 64), Size: 7}, 0))
+			e.lastAct[o.Oid] = "action"
+		case 7: // plus an ERROR entry for an object nobody asked about
+			res.Objects = append(res.Objects, mk(o, 0), &Transfer{Oid: strings.Repeat("8", 64), Size: 7, Error: &ObjectError{Code: 404, Message: "no such object"}})
 			e.lastAct[o.Oid] = "action"
 		}
 	}
